@@ -679,20 +679,20 @@ def _cover_real(m):
 FM_KINDS = ["disjoint"] * 9 + ["minus"] * 3 + ["mixed"] * 3 + ["any"] * 5
 
 
-def _rand_index(rng, L):
+def _rand_index(rng, L, outside=False):
     """spans of an index map in the coordinates of a map of length L: forward / reverse (negative strand) spans,
     ascending, descending or unordered, sometimes poking outside [0, L] (a poking span still touches [0, L]),
-    sometimes with a lost span"""
+    sometimes with a lost span; outside=True: spans lying entirely outside [0, L] are kept (a class of its own)"""
     k = rng.randint(1, 3)
-    lo = -rng.randint(1, 3) if rng.random() < 0.15 else 0
-    hi = L + (rng.randint(1, 3) if rng.random() < 0.15 else 0)
+    lo = -rng.randint(1, 3 + 3 * outside) if rng.random() < 0.15 + 0.5 * outside else 0
+    hi = L + (rng.randint(1, 3 + 3 * outside) if rng.random() < 0.15 + 0.5 * outside else 0)
     if rng.random() < 0.75:
         c = sorted(rng.randint(lo, hi) for _ in range(2 * k))
         pairs = [[c[2 * j], c[2 * j + 1]] for j in range(k)]
     else:
         pairs = [sorted((rng.randint(lo, hi), rng.randint(lo, hi))) for _ in range(k)]
     prev = rng.choice([0.0, 0.0, 0.15, 0.5, 1.0])
-    ospans = [[a, b, rng.random() < prev] for a, b in pairs if b >= 0 and a <= L]
+    ospans = [[a, b, rng.random() < prev] for a, b in pairs if outside or (b >= 0 and a <= L)]
     if rng.random() < 0.3:
         ospans.reverse()
     if rng.random() < 0.2:
@@ -702,6 +702,9 @@ def _rand_index(rng, L):
 
 def _index_class(ospans, L):
     real = [s for s in ospans if len(s) > 1]
+    if any(s[1] < 0 or s[0] > L for s in real):
+        # an index span (also a zero-length one) strictly outside the map, not merely touching 0 / len: a class of its own
+        return "index-span-outside"
     c = []
     if any(s[2] for s in real):
         c.append("idx-rev")
@@ -1157,7 +1160,7 @@ def _spec_fmap(out, rng, count):
         if L and spans:
             indexes.append(dict(spans=_rand_index(rng, L)))
             if rng.random() < 0.5:
-                indexes.append(dict(spans=_rand_index(rng, L)))
+                indexes.append(dict(spans=_rand_index(rng, L, outside=rng.random() < 0.1)))
             vals = [None, 0, L, L + 1, -1, -L] + [rng.randint(-L - 1, L + 2) for _ in range(3)]
             indexes.append(dict(slice=[rng.choice(vals), rng.choice(vals)]))
         bump(out, "fmap_kind", kind)
@@ -1272,15 +1275,18 @@ def _check_fmap(out, spans, pl, indexes):
             want = [None if (j is None or j < 0 or j >= L) else cov[j] for j in _cover_real(o)]
             icl = _index_class(ospans, L)
             bump(out, "fmap_getitem_class", icl + ":" + rv)
+            # an index span entirely outside the map has one signature whatever the strand
+            cl = icl if icl == "index-span-outside" else f"{icl}:{rv}"
             try:
-                got = _cover_real(m[o])
-                if got != want:
-                    add_failure(out, "spec", "m[n] is not the composition of the two maps", dict(inp, index=ix), want, got,
-                                sig=f"fmap-getitem:{icl}:{rv}")
+                r = m[o]
+                got = _cover_real(r)
+                if got != want or len(r) != len(o):
+                    add_failure(out, "spec", "m[n] is not the composition of the two maps (position by position, same length as n)",
+                                dict(inp, index=ix), dict(len=len(o), cover=want), dict(len=len(r), cover=got), sig=f"fmap-getitem:{cl}")
                 elif any(x is not None for x in want):
                     out["nontrivial"].add(("fmap-getitem", str(spans), str(ospans)))
             except CATCH as e:
-                add_failure(out, "spec", "m[n] raised", dict(inp, index=ix), want, type(e).__name__, sig=f"fmap-getitem-raise:{icl}:{rv}")
+                add_failure(out, "spec", "m[n] raised", dict(inp, index=ix), want, type(e).__name__, sig=f"fmap-getitem-raise:{cl}")
         # no coordinates outside the parent
         for name, f in (("covered", m.covered), ("nucleic_reversed", m.nucleic_reversed), ("gaps", m.gaps)):
             try:
@@ -1463,6 +1469,9 @@ def _replay_into(out, inp):
     s = inp.get("s")
     if "spans" in inp:
         ix = inp.get("index")
+        if isinstance(ix, list):
+            # a bare list of index spans
+            ix = dict(spans=ix)
         _check_fmap(out, inp["spans"], inp["pl"], [ix] if ix else [])
         return
     if s is None:
